@@ -81,6 +81,10 @@ func (s script) finalErr() error {
 		return context.Canceled
 	case "eof-error":
 		return io.EOF // an error like any other to a gRPC server (Unknown "EOF"); not "the stream ended well"
+	case "status-bad-utf8":
+		return status.Error(codes.FailedPrecondition, "caf\xe9 closed") // a status text that is not valid UTF-8
+	case "wrapped-eof":
+		return fmt.Errorf("inner stream: %w", io.EOF) // the same with context added on the way up
 	case "wrapped-deadline":
 		return fmt.Errorf("inner call: %w", context.DeadlineExceeded) // the same, with context added on the way up
 	case "wrapped-canceled":
@@ -305,6 +309,10 @@ var strictOutcome bool
 func outcome(err error) string {
 	if strictOutcome && err != nil && err != io.EOF {
 		st, _ := status.FromError(err)
+		if errors.Is(err, io.EOF) {
+			// a client loop that ends on errors.Is(err, io.EOF) takes this for the clean end of the stream
+			return fmt.Sprintf("%v:%s (and reads as io.EOF)", st.Code(), st.Message())
+		}
 		return fmt.Sprintf("%v:%s", st.Code(), st.Message())
 	}
 	switch {
@@ -680,6 +688,8 @@ func scripts(thorough bool) []script {
 	}
 	for _, shape := range []string{"unary", "sstream", "cstream", "bidi"} {
 		out = append(out, script{Shape: shape, HeaderMode: "set", Trailer: true, N: 1, Final: "eof-error", ErrAfter: -1, Client: "normal"})
+		out = append(out, script{Shape: shape, HeaderMode: "set", Trailer: true, N: 1, Final: "wrapped-eof", ErrAfter: -1, Client: "normal"})
+		out = append(out, script{Shape: shape, HeaderMode: "none", N: 1, Final: "status-bad-utf8", ErrAfter: -1, Client: "normal"})
 	}
 	for _, f := range []string{"ok", "status"} {
 		out = append(out, script{Shape: "unary", HeaderMode: "none", N: 1, Final: f, ErrAfter: -1, Client: "normal", Quirk: "watch-context"})
